@@ -44,6 +44,19 @@ func main() {
 		die("%v", err)
 	}
 	repl := map[string]string{}
+	// source overrides (mutation experiments, candidate fixes): path in the repository -> file to use
+	// instead. They are applied BEFORE the import rewrite so that an overridden pools.go / rexp.go
+	// still gets the shims.
+	override := map[string]string{}
+	if *extra != "" {
+		b, err := os.ReadFile(*extra)
+		if err != nil {
+			die("%v", err)
+		}
+		if err := json.Unmarshal(b, &override); err != nil {
+			die("%v", err)
+		}
+	}
 
 	// 1. import rewrite
 	reSync := regexp.MustCompile(`(?m)^([ \t]*)(?:([A-Za-z_][A-Za-z0-9_]*)[ \t]+)?"sync"[ \t]*$`)
@@ -62,7 +75,12 @@ func main() {
 				continue
 			}
 			path := filepath.Join(dir, name)
-			b, err := os.ReadFile(path)
+			srcPath := path
+			if o, ok := override[path]; ok {
+				srcPath = o
+				repl[path] = o
+			}
+			b, err := os.ReadFile(srcPath)
 			if err != nil {
 				die("%v", err)
 			}
@@ -196,17 +214,9 @@ func main() {
 	}, "bootstrapRand()")
 	repl[filepath.Join(rtdir, "zz_verif_map.go")] = filepath.Join(*rt, "runtimepatch", "zz_verif_map.go.txt")
 
-	if *extra != "" {
-		b, err := os.ReadFile(*extra)
-		if err != nil {
-			die("%v", err)
-		}
-		m := map[string]string{}
-		if err := json.Unmarshal(b, &m); err != nil {
-			die("%v", err)
-		}
-		for k, v := range m {
-			repl[k] = v
+	for k, v := range override {
+		if _, done := repl[k]; !done {
+			repl[k] = v // files added by the override (not present in the tree)
 		}
 	}
 
